@@ -30,7 +30,7 @@ fuzz_target!(|data: &[u8]| {
             return;
         }
         let ex = mp4verif::driver::exercise(data, cx);
-        let case = mp4verif::adv::AdvCase { bytes: data.to_vec(), desc: "libFuzzer".into(), touched: vec![], base: 0 };
+        let case = mp4verif::adv::AdvCase { bytes: data.to_vec(), desc: "libFuzzer".into(), touched: vec![], base: 0, baseline: None };
         let res = match ctx.prop.as_str() {
             "C07" => advp::oracle_c07(ctx, &case, &ex),
             "C08" => advp::oracle_c08(ctx, &case, &ex),
